@@ -31,6 +31,46 @@ def run(ctx, chk):
     r1(ctx, chk)
     r2(ctx, chk)
     r3(ctx, chk)
+    r4(ctx, chk)
+
+
+def r4(ctx, chk):
+    """a custom detection function may replace the language selection only when the caller selected nothing:
+    the guard of every store to self.languages in _get_applicable_locales is equivalent to
+    detect_languages_function and not languages and not locales (8-row truth table)"""
+    from ..core import guards
+    rule = "C13.R4"
+    f = ctx.ix.func(DDP + "._get_applicable_locales")
+    atoms = {"self.detect_languages_function": "detect", "self.languages": "languages", "self.locales": "locales"}
+
+    def atom_fn(e):
+        return atoms.get(" ".join(ast.unparse(e).split()))
+    want = ("and", ("atom", "detect"), ("not", ("atom", "languages")), ("not", ("atom", "locales")))
+    stores = [n for n in iter_own_nodes(f.node) if isinstance(n, ast.Assign) and any(
+        isinstance(t, ast.Attribute) and isinstance(t.value, ast.Name) and t.value.id == "self" and t.attr in ("languages", "locales") for t in n.targets)]
+    for st in stores:
+        g = guards.guard_of(f.node, st, atom_fn)
+        diff = guards.equivalent(g, want, ["detect", "languages", "locales"])
+        frees = sorted(guards.atoms_of(g, ("free",)))
+        chk.ob(rule, "the selection is replaced by detected languages only when a detector is given and neither languages nor locales are",
+               diff is None and not frees,
+               "guard %s differs from `detector and not languages and not locales` for %s: the caller's languages are overwritten by the detector's"
+               % (guards.show(g), {k: v for k, v in (diff or {}).items() if not isinstance(k, tuple)}),
+               key={"function": f.key, "construct": "detector guard"}, file=f.file, function=f.qual, line=st.lineno,
+               text=" ".join(ast.unparse(st).split())[:100])
+    chk.floor(rule, len(stores), 1, "stores to the language selection while iterating locales")
+    # the same condition in the search path
+    sd = ctx.ix.func("dateparser.search.search:DateSearchWithDetection.detect_language")
+    atoms2 = {"detect_languages_function": "detect", "languages": "languages"}
+
+    def atom2(e):
+        return atoms2.get(" ".join(ast.unparse(e).split()))
+    calls = [n for n in iter_own_nodes(sd.node) if isinstance(n, ast.Call) and ast.unparse(n.func) == "detect_languages_function"]
+    for c in calls:
+        g = guards.guard_of(sd.node, c, atom2)
+        diff = guards.equivalent(g, ("and", ("atom", "detect"), ("not", ("atom", "languages"))), ["detect", "languages"])
+        chk.ob(rule, "search: the detector is consulted only when no languages are given", diff is None and not guards.atoms_of(g, ("free",)),
+               "guard %s" % guards.show(g), key={"function": sd.key, "construct": "detector guard"}, file=sd.file, function=sd.qual, line=c.lineno)
 
 
 def _kw(call):
